@@ -99,16 +99,21 @@ SHAPES = [
 ]
 SHAPE = {s.sid: s for s in SHAPES}
 
-CLASSES = ['M', 'S', 'L', 'T', 'P']
+CLASSES = ['M', 'S', 'L', 'T', 'P', 'F']
+PARAM = ('P', 'F')
 CLASS_TEXT = {'M': 'module-level DIM', 'S': 'DIM SHARED used from a SUB',
               'L': 'SUB-local DIM', 'T': 'STATIC in a SUB',
-              'P': 'parameter bound to a caller location'}
+              'P': 'parameter bound to a caller location',
+              'F': 'parameter handed on: the caller passes the location to SUB mid, which '
+                   'passes its own parameter to the driver SUB (recursion drivers: every '
+                   'activation passes its parameter to the next one)'}
 
 # (shape, class) cells that the language / qbee does not offer
 UNSUPPORTED = {
     ('im', 'S'): 'an implicit array cannot be SHARED',
     ('im', 'T'): 'implicit STATIC arrays need SUB ... STATIC (everything static); not generated',
     ('im', 'P'): 'an implicit array has no declaration to bind a parameter to',
+    ('im', 'F'): 'an implicit array has no declaration to bind a parameter to',
     ('dy', 'T'): 'STATIC a(n%) is re-allocated on every call in qbee (QBASIC wants STATIC a() + DIM); not generated',
 }
 
@@ -250,6 +255,8 @@ class LayoutDriver:
         self.pairs = [tuple(p) for p in pairs]
         self.mode = mode
         classes = set(c for _, c in self.pairs)
+        if 'F' in classes and 'P' in classes and self.family == 'layout':
+            raise ValueError('classes P and F cannot be mixed (SUB mid hands on every parameter)')
         self.site = 'main' if classes <= {'M'} or classes == {'M', 'S'} else 'sub'
         if self.site == 'sub' and 'M' in classes:
             raise ValueError('class M cannot be mixed with L/T/P (loop lives in the SUB)')
@@ -262,7 +269,7 @@ class LayoutDriver:
             d.shape = SHAPE[sid]
             d.cls = cls
             d.name = name
-            d.host = 'h' + name[1:] if cls == 'P' else None
+            d.host = 'h' + name[1:] if cls in PARAM else None
             d.leaves = []
             for fi, (subs, (field, tc)) in enumerate(
                     (s, f) for s in d.shape.subs() for f in d.shape.fields()):
@@ -289,7 +296,7 @@ class LayoutDriver:
                         if lf.field == field:
                             lf.fam = len(self.vfams)
                     self.vfams.append(fam)
-        self.has_hosts = any(d.cls == 'P' for d in self.decls)
+        self.has_hosts = any(d.cls in PARAM for d in self.decls)
         self.source = self._source()
 
     # -- identification --------------------------------------------------
@@ -315,7 +322,7 @@ class LayoutDriver:
         for d in self.decls:
             if only is not None and d.cls not in only:
                 continue
-            name = d.host if host and d.cls == 'P' else d.name
+            name = d.host if host and d.cls in PARAM else d.name
             tag = f'"D{d.k}|"'
             if variant == 'c' or not d.shape.is_array:
                 items = [tag]
@@ -390,7 +397,7 @@ class LayoutDriver:
         L = []
         for t in self._types_needed():
             L += REC_SRC[t]
-        mod_dyn = any(d.shape.kind == 'dynamic' and d.cls in ('M', 'S', 'P') for d in self.decls)
+        mod_dyn = any(d.shape.kind == 'dynamic' and d.cls in ('M', 'S', 'P', 'F') for d in self.decls)
         if mod_dyn:
             L.append(f'dn% = {DYN_N}')
         # module-level declarations in list order
@@ -400,7 +407,7 @@ class LayoutDriver:
             elif d.cls == 'M':
                 if d.shape.kind != 'implicit':
                     L.append('DIM ' + _dim_text(d.shape, d.name))
-            elif d.cls == 'P':
+            elif d.cls in PARAM:
                 L.append('DIM ' + _dim_text(d.shape, d.host))
         if self.site == 'main':
             for d in self.decls:
@@ -411,13 +418,20 @@ class LayoutDriver:
         else:
             args = []
             for d in self.decls:
-                if d.cls == 'P':
+                if d.cls in PARAM:
                     args.append(d.host + ('()' if d.shape.is_array else ''))
-            L.append('drv' + (' ' + ', '.join(args) if args else ''))
+            fwd = any(d.cls == 'F' for d in self.decls)
+            L.append(('mid' if fwd else 'drv') + (' ' + ', '.join(args) if args else ''))
             # the caller's view after the SUB returned
             L += self._host_dump()
             L.append('END')
-            params = [_param_text(d.shape, d.name) for d in self.decls if d.cls == 'P']
+            params = [_param_text(d.shape, d.name) for d in self.decls if d.cls in PARAM]
+            if fwd:
+                # the intermediate SUB hands its own parameters on
+                L.append('SUB mid (' + ', '.join(params) + ')')
+                L.append('drv ' + ', '.join(d.name + ('()' if d.shape.is_array else '')
+                                            for d in self.decls if d.cls in PARAM))
+                L.append('END SUB')
             L.append('SUB drv' + (' (' + ', '.join(params) + ')' if params else ''))
             if any(d.shape.kind == 'dynamic' and d.cls == 'L' for d in self.decls):
                 L.append(f'dn% = {DYN_N}')
@@ -434,7 +448,7 @@ class LayoutDriver:
         return '\n'.join(L) + '\n'
 
     def _host_dump(self):
-        return self._dump_lines('c', host=True, only=('P', 'S'))
+        return self._dump_lines('c', host=True, only=('P', 'F', 'S'))
 
     # -- model -----------------------------------------------------------
     def initial(self):
@@ -489,7 +503,7 @@ class LayoutDriver:
               ('dump-computed', [_line(OP_DV)], self.dump_text(st), False)]
         if self.site == 'sub' and (self.has_hosts or any(d.cls == 'S' for d in self.decls)):
             pr.append(('caller-view', [_line(OP_QUIT)],
-                       self.dump_text(st, only=('P', 'S')), True))
+                       self.dump_text(st, only=('P', 'F', 'S')), True))
         return pr
 
     def n_menu(self):
@@ -502,7 +516,7 @@ class LayoutDriver:
                 'classes': ','.join(c for _, c in self.pairs),
                 'kinds': ','.join(kinds),
                 'param_kinds': ','.join(sorted(set(d.shape.kind for d in self.decls
-                                                   if d.cls == 'P'))) or '-',
+                                                   if d.cls in PARAM))) or '-',
                 'mode': self.mode}
 
 
@@ -552,19 +566,23 @@ class RecDriver(LayoutDriver):
         L = []
         for t in self._types_needed():
             L += REC_SRC[t]
+        if any(d.shape.kind == 'dynamic' and d.cls in ('S', 'P', 'F') for d in self.decls):
+            L.append(f'dn% = {DYN_N}')
         for d in self.decls:
             if d.cls == 'S':
                 L.append('DIM SHARED ' + _dim_text(d.shape, d.name))
-            elif d.cls == 'P':
+            elif d.cls in PARAM:
                 L.append('DIM ' + _dim_text(d.shape, d.host))
         args = ['1'] + [d.host + ('()' if d.shape.is_array else '')
-                        for d in self.decls if d.cls == 'P']
+                        for d in self.decls if d.cls in PARAM]
         L.append('drv ' + ', '.join(args))
         L += self._host_dump()
         L.append('END')
         params = ['dep AS INTEGER'] + [_param_text(d.shape, d.name)
-                                       for d in self.decls if d.cls == 'P']
+                                       for d in self.decls if d.cls in PARAM]
         L.append('SUB drv (' + ', '.join(params) + ')')
+        if any(d.shape.kind == 'dynamic' and d.cls == 'L' for d in self.decls):
+            L.append(f'dn% = {DYN_N}')
         for d in self.decls:
             if d.cls == 'T':
                 L.append('STATIC ' + _dim_text(d.shape, d.name))
@@ -575,8 +593,9 @@ class RecDriver(LayoutDriver):
         return '\n'.join(L) + '\n'
 
     def _extra_cases(self):
-        args = ['dep + 1'] + [self.carrier[d.k].name + ('()' if d.shape.is_array else '')
-                              for d in self.decls if d.cls == 'P']
+        args = ['dep + 1'] + [(self.carrier[d.k].name if d.cls == 'P' else d.name) +
+                              ('()' if d.shape.is_array else '')
+                              for d in self.decls if d.cls in PARAM]
         return [(OP_CALL, [f'IF dep < {REC_MAXDEPTH} THEN drv ' + ', '.join(args)]),
                 (OP_RET, ['EXIT DO'])]
 
@@ -590,7 +609,7 @@ class RecDriver(LayoutDriver):
     # for S/T leaves, 'host': dict for host leaves}
     def initial(self):
         st = {'glob': {lf.idx: default(lf.tc) for lf in self.leaves if lf.decl.cls in ('S', 'T')},
-              'host': {lf.idx: default(lf.tc) for lf in self.leaves if lf.decl.cls == 'P'},
+              'host': {lf.idx: default(lf.tc) for lf in self.leaves if lf.decl.cls in PARAM},
               'frames': [self._fresh()]}
         return st
 
@@ -608,7 +627,7 @@ class RecDriver(LayoutDriver):
         if c == 'L':
             return st['frames'][depth - 1], lf.idx
         # parameter: the caller's carrier local, or the module-level host
-        if depth == 1:
+        if depth == 1 or c == 'F':
             return st['host'], lf.idx
         car = self.carrier[lf.decl.k]
         clf = car.leaves[lf.decl.leaves.index(lf)]
@@ -633,7 +652,7 @@ class RecDriver(LayoutDriver):
             vals = []
             for lf in d.leaves:
                 if host:
-                    v = st['host'][lf.idx] if d.cls == 'P' else st['glob'][lf.idx]
+                    v = st['host'][lf.idx] if d.cls in PARAM else st['glob'][lf.idx]
                 else:
                     v = self.get(st, lf)
                 vals.append(fmt(lf.tc, v) + '|')
@@ -687,7 +706,7 @@ class RecDriver(LayoutDriver):
             sub = {'glob': st['glob'], 'host': st['host'], 'frames': st['frames'][:depth - 1]}
             exp += self.dump_text(sub)
         lines.append(_line(OP_QUIT))
-        exp += self.dump_text(st, only=('P', 'S'), host=True)
+        exp += self.dump_text(st, only=('P', 'F', 'S'), host=True)
         pr.append(('unwind', lines, exp, True))
         return pr
 
@@ -718,8 +737,8 @@ class ByRefDriver(LayoutDriver):
 
     def __init__(self, pairs, mode='c'):
         for s, c in pairs:
-            if c == 'P':
-                raise ValueError('P not in by-reference drivers')
+            if c in PARAM:
+                raise ValueError('P, F not in by-reference drivers')
         super().__init__(pairs, mode)
 
     def _tcs(self):
